@@ -417,11 +417,8 @@ impl Rw {
                     return Some(out);
                 }
                 // (c) for (f, mut c) in XS.iter().zip(M.column_iter_mut()) { B }
-                if n == ["iter", "zip"] {
-                    let (m, ml) = unchain(links[1].args.first()?);
-                    if names(&ml) != ["column_iter_mut"] {
-                        return None;
-                    }
+                if n == ["iter", "zip"] && names(&unchain(links[1].args.first()?).1) == ["column_iter_mut"] {
+                    let (m, _ml) = unchain(links[1].args.first()?);
                     let cid = pat_ident(&bp)?;
                     let mut out: Vec<Stmt> = vec![];
                     out.push(parse_quote!(let __n = __vp_min(#base.len(), #m.ncols());));
@@ -435,6 +432,37 @@ impl Rw {
                     }));
                     self.note("X4c", line);
                     return Some(out);
+                }
+                // (h) for (i, x) in V.iter().enumerate() { B }
+                if n == ["iter", "enumerate"] {
+                    let k = pat_ident(&ap)?;
+                    let mut out: Vec<Stmt> = vec![];
+                    out.push(parse_quote!(let __n = #base.len();));
+                    out.push(parse_quote!(let mut #k: usize = 0;));
+                    out.push(parse_quote!(while #k < __n {
+                        let #bp = &#base[#k];
+                        #(#body)*
+                        #k = __vp_succ(#k);
+                    }));
+                    self.note("X4h", line);
+                    return Some(out);
+                }
+                // (c2) for (a, b) in A.iter().zip(B.iter()) { B }
+                if n == ["iter", "zip"] {
+                    let (m, ml) = unchain(links[1].args.first()?);
+                    if names(&ml) == ["iter"] {
+                        let mut out: Vec<Stmt> = vec![];
+                        out.push(parse_quote!(let __n = __vp_min(#base.len(), #m.len());));
+                        out.push(parse_quote!(let mut __i: usize = 0;));
+                        out.push(parse_quote!(while __i < __n {
+                            let #ap = &#base[__i];
+                            let #bp = &#m[__i];
+                            #(#body)*
+                            __i = __vp_succ(__i);
+                        }));
+                        self.note("X4c2", line);
+                        return Some(out);
+                    }
                 }
                 // (f) for (idx, val) in V.iter_mut().enumerate() { B }
                 if n == ["iter_mut", "enumerate"] {
@@ -664,6 +692,8 @@ impl<'ast> syn::visit::Visit<'ast> for HasEarlyExit {
 }
 
 struct Pass {
+    x7_off: bool,
+    iterarg: Vec<String>,
     into_fn: Option<String>,
     box_count: usize,
     kinds: BTreeMap<String, Kind>,
@@ -747,35 +777,42 @@ impl Pass {
         let mut stmts: Vec<Stmt> = vec![];
         let by_ref_term = term == "find";
         for (pat, pred, is_term) in conds.iter() {
-            let bind: Stmt = if !*is_term || by_ref_term { parse_quote!(let #pat = &__item;) } else { parse_quote!(let #pat = __item;) };
+            // Verus has no reference patterns: `|&p|` applied to `&item` binds `p = item`
+            let by_ref = !*is_term || by_ref_term;
+            let bind: Stmt = match (pat, by_ref) {
+                (Pat::Reference(r), true) => { let inner = &r.pat; parse_quote!(let #inner = __item;) }
+                (Pat::Reference(r), false) => { let inner = &r.pat; parse_quote!(let #inner = *__item;) }
+                (_, true) => parse_quote!(let #pat = &__item;),
+                (_, false) => parse_quote!(let #pat = __item;),
+            };
             if !*is_term {
                 stmts.push(parse_quote!({ #bind if !(#pred) { __i = __vp_succ(__i); continue; } }));
             } else {
                 let hit: Stmt = match term {
-                    "find" => parse_quote!({ #bind if #pred { __r = Some(__item); break; } }),
-                    "position" => parse_quote!({ #bind if #pred { __r = Some(__i); break; } }),
-                    "any" => parse_quote!({ #bind if #pred { __r = true; break; } }),
-                    _ => parse_quote!({ #bind if !(#pred) { __r = false; break; } }),
+                    "find" | "position" | "any" => parse_quote!({ #bind if #pred { __hit = __i; break; } }),
+                    _ => parse_quote!({ #bind if !(#pred) { __hit = __i; break; } }),
                 };
                 stmts.push(hit);
             }
         }
-        let init: Expr = match term {
-            "find" | "position" => parse_quote!(None),
-            "any" => parse_quote!(false),
-            _ => parse_quote!(true),
+        // `__hit` is the index of the first item that decides the result (or `__n` if there is none)
+        let result: Expr = match term {
+            "find" => parse_quote!(if __hit < __n { let __i = __hit; Some(#item) } else { None }),
+            "position" => parse_quote!(if __hit < __n { Some(__hit) } else { None }),
+            "any" => parse_quote!(__hit < __n),
+            _ => parse_quote!(!(__hit < __n)),
         };
         self.rw.note("X15", e.span().start().line);
         Some(parse_quote!({
-            let mut __r = #init;
             let __n = #base.len();
+            let mut __hit: usize = __n;
             let mut __i: usize = 0;
             while __i < __n {
                 let __item = #item;
                 #(#stmts)*
                 __i = __vp_succ(__i);
             }
-            __r
+            #result
         }))
     }
 }
@@ -1090,6 +1127,29 @@ impl VisitMut for Pass {
             }
             // X7: (f)(a, b) -> f.call(a, b)
             Expr::Call(c) => {
+                if let (Expr::Paren(p), true) = (&*c.func, self.x7_off) {
+                    // a generic `F: Fn(..)` callable: called natively
+                    let f = &p.expr;
+                    let args = &c.args;
+                    *e = parse_quote!(#f(#args));
+                    return;
+                }
+                // X13c: `leaf(E.iter())` -> `leaf(E)` for the assumed leaves named by the contracts
+                if let Expr::Path(p) = &*c.func {
+                    if let Some(id) = p.path.get_ident() {
+                        if self.iterarg.contains(&id.to_string()) {
+                            for a in c.args.iter_mut() {
+                                if let Expr::MethodCall(mc) = a {
+                                    if mc.method == "iter" && mc.args.is_empty() {
+                                        let r = (*mc.receiver).clone();
+                                        *a = r;
+                                    }
+                                }
+                            }
+                            self.rw.note("X13", line);
+                        }
+                    }
+                }
                 if let Expr::Paren(p) = &*c.func {
                     let f = &p.expr;
                     let args = &c.args;
@@ -1102,8 +1162,9 @@ impl VisitMut for Pass {
                     if path_str(&p.path) == "Box::new" && c.args.len() == 1 {
                         self.box_count += 1;
                         let g = syn::Ident::new(&format!("__g{}", self.box_count), Span::call_site());
+                        let rq = syn::Ident::new(&format!("__rq{}", self.box_count), Span::call_site());
                         let a = &c.args[0];
-                        *e = parse_quote!(BaseFunc::from_closure(#a, Ghost(#g)));
+                        *e = parse_quote!(BaseFunc::from_closure(#a, Ghost(#g), Ghost(#rq)));
                         self.rw.note("X7b", line);
                         return;
                     }
@@ -1325,6 +1386,8 @@ pub fn extract(ast: &syn::File, file: &str, spec: &FnSpec, pr: &mut Printer) -> 
         }
     }
     let mut pass = Pass {
+        x7_off: spec.attrs.contains_key("x7off"),
+        iterarg: spec.attrs.get("iterarg").map(|s| s.split(',').map(|x| x.to_string()).collect()).unwrap_or_default(),
         into_fn: spec.attrs.get("into").cloned(),
         box_count: 0,
         kinds: BTreeMap::new(),
